@@ -330,6 +330,24 @@ pub fn fd_program(rng: &mut Rng, cfg: &FdCfg) -> Program {
         let pos = rng.below(body.len() + 1);
         body.insert(pos, G::InFdRange(T::list(grouped.iter().map(|v| T::Var(*v)).collect()), lo, hi));
     }
+    if rng.chance(1, 4) {
+        // one or two further domains on variables that already have one (the domains are
+        // intersected); biased towards interleaving sparse sets whose meet may be empty
+        for _ in 0..1 + rng.below(2) {
+            let v = vars[rng.below(nv)];
+            let par = rng.below(2) as i64;
+            let d: Vec<i64> = match rng.below(4) {
+                0 | 1 => (lo..=hi).filter(|x| (x - lo) % 2 == par).collect(),
+                2 => (lo..=hi).filter(|_| rng.chance(1, 2)).collect(),
+                _ => vec![rng.range(lo, hi)],
+            };
+            if d.is_empty() {
+                continue;
+            }
+            let pos = rng.below(body.len() + 1);
+            body.insert(pos, G::InFd(T::Var(v), d));
+        }
+    }
     let hidden: Vec<V> = vars[nq..].to_vec();
     let mut qvars: Vec<V> = vars[..nq].to_vec();
     if cfg.structured_query && rng.chance(1, 2) {
